@@ -24,6 +24,12 @@ import (
 func bigOffset(r *Rng) uint64 {
 	bits := []uint{31, 32, 33, 34, 40, 47, 55, 62}[r.Intn(8)]
 	b := (r.Next() | 1<<63) >> (64 - bits) // exactly `bits` bits
+	switch r.Intn(10) {
+	case 0, 1, 2:
+		b = 1 << (bits - 1) // exactly a power of two: the forest sits just above it
+	case 3:
+		b = 1<<(bits-1) + 1<<20
+	}
 	b &^= 1<<20 - 1
 	if b == 0 {
 		b = 1 << (bits - 1)
